@@ -27,6 +27,7 @@ use crate::codec::family::Family;
 use crate::common::NumStdDev;
 use crate::error::Error;
 use crate::hll::estimator::HipEstimator;
+use crate::hll::estimator::inv_pow2;
 use crate::hll::get_slot;
 use crate::hll::get_value;
 use crate::hll::serialization::CUR_MODE_HLL;
@@ -244,9 +245,9 @@ impl Array8 {
             if val == 0 {
                 kxq0_sum += 1.0;
             } else if val < 32 {
-                kxq0_sum += 1.0 / (1u64 << val) as f64;
+                kxq0_sum += inv_pow2(val);
             } else {
-                kxq1_sum += 1.0 / (1u64 << val) as f64;
+                kxq1_sum += inv_pow2(val);
             }
         }
 
